@@ -16,11 +16,28 @@ import (
 func (f *FuncVC) mapInit(st *State, r string, t types.Type) {}
 
 func (f *FuncVC) execMapUpdate(fr *frame, st *State, x *ssa.MapUpdate) {
-	f.unsupportedf("map update in %s", fr.fn.Name())
+	// Map contents are not modelled (no contract speaks about them): an update changes nothing the VCs can see.
+	// It is still a write to the map object for the frame condition.
+	m := f.val(fr, st, x.Map)
+	f.oblig("panic", st, "(not (= "+f.termAs(m, KMap, 0)+" 0))", x.Pos(), "assignment to entry in nil map")
+	if f.C != nil {
+		g := f.isFreshRef(f.termAs(m, KMap, 0))
+		if g != "true" {
+			ok := false
+			for _, ml := range f.modSet {
+				if ml.key == "*" {
+					ok = true
+				}
+			}
+			if !ok {
+				f.oblig("frame", st, g, x.Pos(), "map update writes only fresh memory")
+			}
+		}
+	}
 }
 
 func (f *FuncVC) execMapLookup(fr *frame, st *State, x *ssa.Lookup, m Val) {
-	f.unsupportedf("map lookup in %s", fr.fn.Name())
+	// unconstrained result: sound because nothing is ever assumed about map contents
 	fr.vals[x] = f.freshVal(st, "maplookup", x.Type())
 }
 
